@@ -141,7 +141,7 @@ CHECKS = {
     "C12": dict(
         level="model_checking",
         clauses={"dtype-static", "dtype-export", "dtype-roundtrip"},
-        phases=dict(quick=[dict(profile="ty2", opts=dict(roundtrip=True)), dict(profile="union2", opts=dict(roundtrip=True))],
+        phases=dict(quick=[dict(profile="ty2", opts=dict(roundtrip=True)), dict(profile="ty2", opts=dict(roundtrip=True, generic=True)), dict(profile="union2", opts=dict(roundtrip=True))],
                     thorough=[dict(profile="ty2", opts=dict(roundtrip=True)), dict(profile="join2", opts=dict(roundtrip=True)),
                               dict(profile="union3", opts=dict(roundtrip=True)), dict(profile="agg3", opts=dict(roundtrip=True))]),
     ),
